@@ -183,6 +183,8 @@ class _FunctionFreshness:
                 return "Fresh"  # collections.OrderedDict(...)
             if isinstance(e.func, ast.Attribute) and e.func.attr in ("copy", "astype", "reshape", "flatten", "tolist", "take", "lower", "format", "title", "strftime", "join", "split", "intersection", "union", "keys", "values", "items"):
                 return "Fresh" if e.func.attr not in ("reshape",) else self.classify(e.func.value)
+            if f in ("np.swapaxes", "np.moveaxis", "np.transpose", "np.atleast_1d", "np.atleast_2d", "np.ravel", "np.squeeze", "np.expand_dims", "np.asarray", "np.broadcast_to") and e.args:
+                return self.classify(e.args[0])  # a VIEW of its first argument: as fresh / shared as that
             if isinstance(e.func, ast.Attribute) and e.func.attr in ("get", "pop", "setdefault"):
                 r = e.func.value
                 # d.get("a", {}).get("b", {}) is a sub-object of d as well
